@@ -176,6 +176,11 @@ func (dec *xmlReader) Next() error {
 			return err
 		}
 	}
+	return dec.advance()
+}
+
+// advance moves to the next start or end tag.
+func (dec *xmlReader) advance() error {
 	for {
 		tok, err := dec.r.Token()
 		if err != nil {
@@ -358,8 +363,14 @@ func (dec *xmlReader) Struct(tag int, f func(reader) error) error {
 	if err := f(&subDec); err != nil {
 		return err
 	}
+	// Skip the elements the callback did not consume. A skipped element may be a structure:
+	// it has to be skipped as a whole, otherwise its end tag would be taken for the end of this
+	// structure and the elements behind it would be handed to the enclosing one.
 	for subDec.elem != nil {
-		if err := subDec.Next(); err != nil {
+		if err := subDec.r.Skip(); err != nil {
+			return err
+		}
+		if err := subDec.advance(); err != nil {
 			return err
 		}
 	}
